@@ -557,12 +557,13 @@ func (conn *obfs4Conn) Write(b []byte) (int, error) {
 				if frameBuf.Len() < targetLen {
 					// There's not enough data buffered for the target write,
 					// so padding must be inserted.
-					if err = conn.padBurst(&frameBuf, targetLen); err != nil {
+					if err = conn.padParanoid(&frameBuf, targetLen); err != nil {
 						return 0, err
 					}
 					if frameBuf.Len() != targetLen {
-						// Ugh, padding came out to a value that required more
-						// than one frame, this is relatively unlikely so just
+						// Ugh, the padding needed was smaller than a frame
+						// header, so the buffer now holds a multiple of the
+						// target, this is relatively unlikely so just
 						// resample since there's enough data to ensure that
 						// the next sample will be written.
 						continue
@@ -618,6 +619,30 @@ func (conn *obfs4Conn) closeAfterDelay(sf *obfs4ServerFactory, startTime time.Ti
 	// Consume and discard data on this connection until the specified interval
 	// passes.
 	_, _ = io.Copy(io.Discard, conn.Conn)
+}
+
+// padParanoid pads a burst that is shorter than target so that it can be
+// written out in pieces of exactly target bytes.  Padding comes in frames, so
+// when less than a frame header's worth is missing, the burst is extended to
+// the next multiple of target that leaves room for one.  (Going through
+// padBurst() for this adds a full sized frame instead, after which the same
+// shortfall comes around again, forever if the length distribution has a
+// single value.)
+func (conn *obfs4Conn) padParanoid(burst *bytes.Buffer, target int) error {
+	padLen := target - burst.Len()
+	for padLen <= headerLength {
+		padLen += target
+	}
+
+	// padLen is at most headerLength + framing.MaximumSegmentLength, which
+	// takes two frames, each larger than a header.
+	if padLen > framing.MaximumSegmentLength {
+		if err := conn.makePacket(burst, packetTypePayload, []byte{}, uint16(padLen/2-headerLength)); err != nil {
+			return err
+		}
+		padLen -= padLen / 2
+	}
+	return conn.makePacket(burst, packetTypePayload, []byte{}, uint16(padLen-headerLength))
 }
 
 func (conn *obfs4Conn) padBurst(burst *bytes.Buffer, toPadTo int) error {
